@@ -587,7 +587,7 @@ func TestC20(t *testing.T) {
 		}
 		c.rec.Bulk("long-codes", evals, evals, map[string]int64{"long-string-with-code-prefix": evals})
 	}
-	c.rapidStage("rapid-codes", pick(50000, 2000000), func(rt *rapid.T) {
+	c.rapidStage("rapid-codes", pick(160000, 2000000), func(rt *rapid.T) {
 		a := rapid.SampledFrom(apis).Draw(rt, "metric")
 		var s string
 		switch rapid.IntRange(0, 3).Draw(rt, "kind") {
